@@ -370,6 +370,11 @@ func (e *Entry) importErrors(c *Entry) {
 	for _, ce := range c.Dir {
 		e.importErrors(ce)
 	}
+	if c.RPC != nil {
+		// The input and output of an rpc or action are not in Dir.
+		e.importErrors(c.RPC.Input)
+		e.importErrors(c.RPC.Output)
+	}
 }
 
 // checkErrors calls f on every error found in the tree e and its children.
@@ -379,6 +384,11 @@ func (e *Entry) checkErrors(f func(error)) {
 	}
 	for _, e := range e.Dir {
 		e.checkErrors(f)
+	}
+	if e.RPC != nil {
+		// The input and output of an rpc or action are not in Dir.
+		e.RPC.Input.checkErrors(f)
+		e.RPC.Output.checkErrors(f)
 	}
 	for _, err := range e.Errors {
 		f(err)
